@@ -12,6 +12,10 @@ One stream of trajectory tables (positions on a k/8 grid) through the real
   * CORRESPONDENCE (function mode) with the Lean model `Model/Drift.lean` (`C18DRIFT`, `C18SUB`):
     drift curves, output row order and values, re-measured drift — also where the hypothesis
     fails (there the theorems say nothing, the model still has to agree with the code).
+  * SMOOTHING (a deterministic third of the cases): `compute_drift(t, smoothing=k)`, k in
+    {1, 2, 3, 5}, against the direct definition (trailing rolling mean over the measured frames of
+    the oracle's own mean displacements, `min_periods=0`, then cumulative sum, in `Fraction`s) and
+    against `Model/DriftSmooth.lean` (`C18SMOOTH`).
 """
 from fractions import Fraction
 
@@ -26,12 +30,14 @@ RULE = ("tables of 1-8 particles x 2-15 frames, positions k/8, particles enterin
         "2-D/3-D, extra columns in random column order, index layouts {RangeIndex, shuffled ints, "
         "named 'idx', named 'frame' (column kept), named 'particle' (column kept)}; drift=None, "
         "explicit own drift, drift of a column subset, foreign curve with frames outside the table; "
-        "rigid stream = zero-drift base + common motion.  Non-trivial = >=2 measured frames and a "
+        "rigid stream = zero-drift base + common motion; every third table also with smoothing = "
+        "1, 2, 3, 5.  Non-trivial = >=2 measured frames and a "
         "frame whose mean averages >=2 displacements; distinct = distinct canonical input.")
 ASSUMPTIONS = [
     "positions are k/8 so every difference is exact in float64; means/cumulative sums carry "
     "rounding ~1e-15, compared with tolerance 1e-9 (relative to max(1,|v|))",
-    "smoothing = 0 only (the rolling mean is outside the claim)",
+    "smoothing in {0, 1, 2, 3, 5}; subtract_drift and the re-measured drift are exercised with the "
+    "unsmoothed curve (smoothing = 0) only",
     "tables are valid trajectory tables: no two rows share (particle, frame) (the driver "
     "re-checks this hypothesis of the theorems on every case)",
     "the drift is re-measured on subtract_drift's output after reset_index(drop=True) (the "
@@ -264,6 +270,76 @@ def parse_curve(s):
     return out
 
 
+SMOOTHINGS = [1, 2, 3, 5]
+
+
+def oracle_smoothed(measured, odrift, nd, w):
+    """the direct definition of compute_drift(smoothing=w), w >= 1, from the oracle's own numbers: mean
+    displacement per measured frame (increments of the unsmoothed oracle curve), trailing rolling mean
+    over the last min(w, j+1) MEASURED frames, cumulative sum.  Returns {f: [Fraction]*nd}."""
+    md, prev = [], [Fraction(0)] * nd
+    for f in measured:
+        md.append([odrift[f][k] - prev[k] for k in range(nd)])
+        prev = odrift[f]
+    out, cum = {}, [Fraction(0)] * nd
+    for j, f in enumerate(measured):
+        lo = max(0, j - w + 1)
+        sm = [sum(md[i][k] for i in range(lo, j + 1)) / (j + 1 - lo) for k in range(nd)]
+        cum = [cum[k] + sm[k] for k in range(nd)]
+        out[f] = list(cum)
+    return out
+
+
+def _check_smoothed(ctx, inp, res, nd, names, line, measured, odrift, pv):
+    from trackpy.motion import compute_drift
+    for w in SMOOTHINGS:
+        t = build_frame(inp)
+        before = t.copy(deep=True)
+        try:
+            d = compute_drift(t, smoothing=w)
+        except Exception as e:
+            pv("compute_drift-raises", "compute_drift(smoothing=%d) raised %s: %s"
+               % (w, type(e).__name__, str(e)[:200]))
+            return
+        cd = caller_diff(t, before)
+        if cd is not None:
+            pv(cd[0], "compute_drift(smoothing=%d): %s" % (w, cd[1]), impl=cd[1])
+        fr, cv = curve_of(d, nd)
+        osm = oracle_smoothed(measured, odrift, nd, w)
+        res.stat("smoothed_compared")
+        res.stat("smoothing_%d" % w)
+        if len(measured) > w:
+            res.stat("smoothed_window_full")
+        ok_oracle = (fr == measured and sorted(cv) == sorted(names)
+                     and all(close(cv[c][j], osm[f][NAMES.index(c)]) for c in cv for j, f in enumerate(fr)))
+        if not ok_oracle:
+            pv("smoothed-drift-value", "compute_drift(smoothing=%d) differs from the cumulative sum of the "
+               "rolling mean (last %d measured frames, min_periods=0) of the mean displacements" % (w, w),
+               impl=dict(frames=fr, values=cv),
+               model=dict(frames=measured, values={NAMES[k]: [str(osm[f][k]) for f in measured]
+                                                   for k in range(nd)}))
+            return
+        m = common.kv(ctx.ask("C18SMOOTH %d %d | %s" % (w, nd, line)))
+        mfr = [int(x) for x in m["frames"].split(",") if x] if isinstance(m.get("frames"), str) else []
+        mc = [parse_curve(m.get("s%d" % k) if isinstance(m.get("s%d" % k), str) else "") for k in range(nd)]
+        ok_model = (m.get("nodup") == "1" and m.get("rect") == "1" and fr == mfr
+                    and all([f for f, _ in mc[k]] == fr for k in range(nd))
+                    and all(close(cv[NAMES[k]][j], mc[k][j][1]) for k in range(nd) for j in range(len(fr))))
+        if not ok_model:
+            res.violation("correspondence-break", "model smoothed drift (smoothing=%d) differs from "
+                          "compute_drift" % w, impl=dict(frames=fr, values=cv), model=m,
+                          broken="driftSmoothedCol / rollingMean",
+                          signature=dict(what="smoothed-drift", smoothing=w))
+            return
+        # the model against the direct definition, exactly (both are rationals)
+        if any(mc[k][j][1] != osm[f][k] for k in range(nd) for j, f in enumerate(fr)):
+            res.violation("correspondence-break", "model smoothed drift (smoothing=%d) differs from the "
+                          "direct definition although both agree with the code within 1e-9" % w,
+                          impl=dict(frames=fr, values=cv), model=m, broken="driftSmoothedCol / rollingMean",
+                          signature=dict(what="smoothed-drift", smoothing=w, exact=True))
+            return
+
+
 RENAMES = [["x0", "x1", "x2"], ["xc", "yc", "zc"], ["x_um", "y_um", "z_um"], ["col", "row", "plane"],
            ["X", "Y", "Z"], ["pos_a", "pos_b", "pos_c"], [0, 1, 2]]
 
@@ -390,6 +466,10 @@ def run_case(ctx, inp):
         res.violation("correspondence-break", "model drift differs from compute_drift",
                       impl=dict(frames=fr, values=cv), model=m, broken="computeDriftCol / drift_def",
                       signature=dict(what="model-drift-differs"))
+
+    # ---- smoothing > 0: rolling mean of the mean displacements, then the cumulative sum -
+    if ok_oracle and inp.get("shuffle2", 0) % 3 == 0:
+        _check_smoothed(ctx, inp, res, nd, names, line, measured, odrift, pv)
 
     # ---- row-order independence --------------------------------------------------------
     order = list(range(len(rows)))
